@@ -440,57 +440,8 @@ func c20adapter(p *core.Prog, f, cl *ssa.Function, m []string) (bool, string) {
 				return false, "does not pass args[0]"
 			}
 		}
-		// true edge returns 1, false edge 0
-		okT, okF := false, false
-		core.Instrs(cl, func(ins ssa.Instruction) {
-			r, ok := ins.(*ssa.Return)
-			if !ok {
-				return
-			}
-			val := int64(-1)
-			if sc, isC := core.RetVals(r)[0].(*ssa.Call); isC && len(sc.Call.Args) == 1 {
-				// SliceOf(R(k)) → variadic slice literal holding a converted constant
-				if sl, isSl := sc.Call.Args[0].(*ssa.Slice); isSl {
-					if a, isA := sl.X.(*ssa.Alloc); isA {
-						for _, rr := range *a.Referrers() {
-							if ia, isIA := rr.(*ssa.IndexAddr); isIA {
-								for _, st := range core.Stores(ia) {
-									v := st.Val
-									for {
-										if mcv, isM := v.(*ssa.MultiConvert); isM {
-											v = mcv.X
-											continue
-										}
-										if cv, isCv := v.(*ssa.Convert); isCv {
-											v = cv.X
-											continue
-										}
-										break
-									}
-									if k, isK := v.(*ssa.Const); isK {
-										if av, ok2 := core.ConstAV(k); ok2 && av.Lo != nil {
-											f64, _ := av.Lo.Float64()
-											val = int64(f64)
-										}
-									}
-								}
-							}
-						}
-					}
-				}
-			}
-			for _, cnd := range core.EdgeFacts(r.Block()) {
-				nrm := core.Normalize(cnd)
-				if nrm.V == ssa.Value(call) {
-					if nrm.True && val == 1 {
-						okT = true
-					}
-					if !nrm.True && val == 0 {
-						okF = true
-					}
-				}
-			}
-		})
+		// true edge returns 1, false edge 0 (directly, or in a helper that is handed the bool)
+		okT, okF := c20boolTo10(p, cl, call, 0)
 		if !okT || !okF {
 			return false, "true is not mapped to 1 and false to 0"
 		}
@@ -770,4 +721,70 @@ func c20matchFor(p *core.Prog, f *ssa.Function) (bool, string) {
 		return false, "MatchFor must return only from the first match and panic only after all patterns were tried"
 	}
 	return true, "ascending visit; first pattern with Matches(value) → return its Apply(value); panic after the loop"
+}
+
+// c20boolTo10: in cl, the returns on the true edge of cond yield SliceOf(R(1)) and those on the false edge SliceOf(R(0)).
+func c20boolTo10(p *core.Prog, cl *ssa.Function, cond ssa.Value, depth int) (okT, okF bool) {
+	core.Instrs(cl, func(ins ssa.Instruction) {
+		r, ok := ins.(*ssa.Return)
+		if !ok {
+			return
+		}
+		val := int64(-1)
+		if hc, isC := core.RetVals(r)[0].(*ssa.Call); isC && depth < 2 {
+			if h := core.Callee(&hc.Call); h != nil && p.InRepo(h) && h.Name() != "SliceOf" {
+				for i, a := range hc.Call.Args {
+					if a == cond && i < len(h.Params) {
+						t, f := c20boolTo10(p, h, h.Params[i], depth+1)
+						if t && f {
+							okT, okF = true, true
+						}
+					}
+				}
+			}
+		}
+		if sc, isC := core.RetVals(r)[0].(*ssa.Call); isC && len(sc.Call.Args) == 1 {
+			// SliceOf(R(k)) → variadic slice literal holding a converted constant
+			if sl, isSl := sc.Call.Args[0].(*ssa.Slice); isSl {
+				if a, isA := sl.X.(*ssa.Alloc); isA {
+					for _, rr := range *a.Referrers() {
+						if ia, isIA := rr.(*ssa.IndexAddr); isIA {
+							for _, st := range core.Stores(ia) {
+								v := st.Val
+								for {
+									if mcv, isM := v.(*ssa.MultiConvert); isM {
+										v = mcv.X
+										continue
+									}
+									if cv, isCv := v.(*ssa.Convert); isCv {
+										v = cv.X
+										continue
+									}
+									break
+								}
+								if k, isK := v.(*ssa.Const); isK {
+									if av, ok2 := core.ConstAV(k); ok2 && av.Lo != nil {
+										f64, _ := av.Lo.Float64()
+										val = int64(f64)
+									}
+								}
+							}
+						}
+					}
+				}
+			}
+		}
+		for _, cnd := range core.EdgeFacts(r.Block()) {
+			nrm := core.Normalize(cnd)
+			if nrm.V == cond {
+				if nrm.True && val == 1 {
+					okT = true
+				}
+				if !nrm.True && val == 0 {
+					okF = true
+				}
+			}
+		}
+	})
+	return
 }
